@@ -66,17 +66,18 @@ func snapDiff(a, b map[string]string) (added, removed, changed []string) {
 	return
 }
 
-var c16IDs = []string{"id", "../../etc/passwd", "..", ".", "a/b", "/abs/path", "a/../../b", ".hidden", "x.json", "x.yaml", "x.txt", "with space", "trailing/", "//", "a//b", "..json", "é/ü", "a\nb", "tab\there", "..../....", strings.Repeat("long/", 30), "-dash", "~", "$HOME/`x`", "*?[", "\\back\\slash", "con:1"}
+var c16IDs = []string{"id", "pod.YAML", "x.JSON", "a/b.Yaml", "y.jSON", "../../etc/passwd", "..", ".", "a/b", "/abs/path", "a/../../b", ".hidden", "x.json", "x.yaml", "x.txt", "with space", "trailing/", "//", "a//b", "..json", "é/ü", "a\nb", "tab\there", "..../....", strings.Repeat("long/", 30), "-dash", "~", "$HOME/`x`", "*?[", "\\back\\slash", "con:1"}
 
 func checkC16(c *Ctx) {
 	c.Rule = "valid Specs (vendors/classes with dots, classes ending in .json/.yaml) x transient ids (with '/', '..', '.', leading dots, extensions, blanks, line breaks; catalogue + G-STR) x all four name generators x suffix {none,.json,.yaml} x directory lists of 1-3 entries whose last one is populated, empty, missing or missing two levels deep, with decoy files in parents, siblings and the lower-priority directories defining the same devices (also conflicting there); manual and auto-refresh caches; oracles: name is one path component; tree-snapshot diff after WriteSpec = exactly the expected file (+ directories that had to be created); encoding by extension; after Refresh the devices resolve to that file with the last directory's priority; RemoveSpec diff = exactly that file; second RemoveSpec = nil; distinct_nontrivial = distinct (generator, id shape, suffix, directory-list shape, mode)"
 	c.Assume("transient ids contain no NUL byte and are <=200 bytes", "the last configured directory holds no other file defining the same devices (a same-directory conflict is not 'another directory')")
 	c.RunCases("gen", c.pick(800, 30000), 0, func(cs *Case) { c16Case(cs, false) })
 	c.RunCases("auto", c.pick(80, 1500), 4, func(cs *Case) { c16Case(cs, true) })
-	c.Floor("id_with_slash", 20)
-	c.Floor("id_with_dotdot", 20)
-	c.Floor("id_with_extension", 20)
-	c.Floor("last_dir_missing", 20)
+	c.Floor("id_with_slash", 8)
+	c.Floor("id_with_dotdot", 8)
+	c.Floor("id_with_extension", 8)
+	c.Floor("name_with_extension_in_other_case", 5)
+	c.Floor("last_dir_missing", 8)
 	c.Floor("auto_mode_last_dir_missing", 5)
 }
 
@@ -87,7 +88,7 @@ func c16Case(cs *Case, auto bool) {
 	must(os.MkdirAll(sandbox, 0o755))
 	defer os.RemoveAll(root)
 	vendor := pickStr(r, "vendor.com", "v", "a.b.c", "x-y_z.io")
-	class := pickStr(r, "gpu", "dev.json", "x.yaml", "a.b", "c", "net-1.yaml.x")
+	class := pickStr(r, "gpu", "dev.json", "x.yaml", "a.b", "c", "net-1.yaml.x", "gpu.JSON", "dev.Yaml", "x.YAML", "j.Json")
 	spec := genSpec(r, SpecGen{Vendor: vendor, Class: class, Marker: "new", Plain: true, DevNames: []string{"dev0", "dev1"}, Version: "1.0.0"})
 	// directories
 	ndirs := 1 + r.Intn(3)
@@ -172,6 +173,12 @@ func c16Case(cs *Case, auto bool) {
 		return
 	}
 	suffix := pickStr(r, "", ".json", ".yaml")
+	if strings.HasSuffix(strings.ToLower(name), ".json") || strings.HasSuffix(strings.ToLower(name), ".yaml") {
+		if !strings.HasSuffix(name, ".json") && !strings.HasSuffix(name, ".yaml") {
+			suffix = "" // an extension in another letter case is not a Spec extension: .yaml must be appended
+			c.Count("name_with_extension_in_other_case", 1)
+		}
+	}
 	wname := name + suffix
 	expected := filepath.Join(last, wname)
 	enc := "yaml"
